@@ -2,6 +2,7 @@ CONSTANTS
  Mode = "gen"
  HistLen = 7
  LenientRelabel = FALSE
+ NeedGraph = FALSE
  RestartSets = {{}, {3}, {5}}
  Pinned = FALSE
 INIT IInit
